@@ -59,7 +59,7 @@ package bufgen
 // aborts without Close, so nothing reaches the disk.
 //@ func (g *generator) generateCode(ctx, container, inputImage, baseOutDir, pluginConfigs, includeImportsOverride, includeWellKnownTypesOverride) (err)
 //@   property C17
-//@   modifies heap, ghost.fail, ghost.wfail, ghost.sinkPaths, ghost.sinkBuckets, ghost.lastPutOptions, ghost.buf, ghost.v_scanPos, ghost.v_match, ghost.v_ipRead, ghost.v_wrCalls, ghost.j_osStat, ghost.j_osWrite, ghost.v_statErr, ghost.v_addN, ghost.v_addResp, ghost.v_addOut, ghost.cbCalls, ghost.cbArgs, ghost.cbArg0, ghost.cbArg1, ghost.cbArg2, ghost.cbArg3, ghost.v_closeCalls, ghost.v_addNAtClose, ghost.v_responses, ghost.v_execErr
+//@   modifies heap, ghost.fail, ghost.wfail, ghost.sinkPaths, ghost.sinkBuckets, ghost.lastPutOptions, ghost.buf, ghost.v_scanPos, ghost.v_scanEnded, ghost.v_match, ghost.v_ipRead, ghost.v_wrCalls, ghost.j_osStat, ghost.j_osWrite, ghost.v_statErr, ghost.v_addN, ghost.v_addResp, ghost.v_addOut, ghost.cbCalls, ghost.cbArgs, ghost.cbArg0, ghost.cbArg1, ghost.cbArg2, ghost.cbArg3, ghost.v_closeCalls, ghost.v_addNAtClose, ghost.v_responses, ghost.v_execErr
 //@   ghost after "responses, err := g.execPlugins(" v_responses := responses
 //@   ghost after "responses, err := g.execPlugins(" v_execErr := err
 //@   reveal v_outOf
@@ -96,7 +96,7 @@ package bufgen
 //@ inline func newGenerateOptions
 //@ func (g *generator) Generate(ctx, container, config, images, options) (err)
 //@   property C17
-//@   modifies heap, ghost.fail, ghost.wfail, ghost.sinkPaths, ghost.sinkBuckets, ghost.lastPutOptions, ghost.buf, ghost.v_scanPos, ghost.v_match, ghost.v_ipRead, ghost.v_wrCalls, ghost.j_osStat, ghost.j_osWrite, ghost.v_statErr, ghost.v_addN, ghost.v_addResp, ghost.v_addOut, ghost.cbCalls, ghost.cbArgs, ghost.cbArg0, ghost.cbArg1, ghost.cbArg2, ghost.cbArg3, ghost.v_closeCalls, ghost.v_addNAtClose, ghost.v_responses, ghost.v_execErr, ghost.v_osRoots, ghost.v_cleanedOuts, ghost.v_cleanAtAddN, ghost.v_cleanCalls
+//@   modifies heap, ghost.fail, ghost.wfail, ghost.sinkPaths, ghost.sinkBuckets, ghost.lastPutOptions, ghost.buf, ghost.v_scanPos, ghost.v_scanEnded, ghost.v_match, ghost.v_ipRead, ghost.v_wrCalls, ghost.j_osStat, ghost.j_osWrite, ghost.v_statErr, ghost.v_addN, ghost.v_addResp, ghost.v_addOut, ghost.cbCalls, ghost.cbArgs, ghost.cbArg0, ghost.cbArg1, ghost.cbArg2, ghost.cbArg3, ghost.v_closeCalls, ghost.v_addNAtClose, ghost.v_responses, ghost.v_execErr, ghost.v_osRoots, ghost.v_cleanedOuts, ghost.v_cleanAtAddN, ghost.v_cleanCalls
 //@   ensures clean-at-most-once: ghost.v_cleanCalls == old(ghost.v_cleanCalls) || ghost.v_cleanCalls == old(ghost.v_cleanCalls) + 1
 //@   ensures clean-before-generate: ghost.v_cleanCalls != old(ghost.v_cleanCalls) ==> ghost.v_cleanAtAddN == old(ghost.v_addN)
 // (Whether --clean is in force - config.CleanPluginOuts() unless overridden by an option - is not claimed: the option
